@@ -18,8 +18,8 @@ ID = "C09"
 RULE = (
     "H: 10 queries mixing cacheable sub-expressions (root- and context-rooted queries, constants, functions of them, nested "
     "filters inside root paths) with per-node ones (current node, current key) x 2 documents that differ exactly in the cached "
-    "part x 2 filter contexts x {caching on, off}: every history of depth<=4 (5 for 3 queries; thorough 6, and 7 for 3 queries) over the letters "
-    "{open iterator on doc i, advance iterator j (<=3 live), findall(doc i), recompile, findall in the other caching mode}; every "
+    "part x 2 filter contexts x {caching on, off}: every history of depth<=4 with caching on (5 for one query; 3 with caching off; thorough 6, and 7 for 3 queries) over the letters "
+    "{open iterator on doc i, advance iterator j (<=3 live), findall(doc i), findall(doc i) under the other filter context, swap the two documents' contents in place, recompile, findall in the other caching mode}; every "
     "observation equals a fresh compile evaluated once on a deep copy in a fresh non-caching environment; documents, filter "
     "contexts and the compiled query's public surface unchanged; TASK: 6 coroutine harnesses x {caching on, off}, <=1 (3) "
     "preemptions; THR: 4 two-thread harnesses, every schedule with <=1 (2) preemptions at call granularity, plus 200 free-running runs. "
@@ -49,15 +49,22 @@ def selftest():
 
 
 def bounds(tier, seed):
-    return {"queries": len(QUERIES), "history_depth": "4; 5 for 3 queries with caching on; one depth-6 block by VERIF_SEED" if tier == "quick" else "6; 7 for 3 queries", "max_live_iterators": 3,
+    return {"queries": len(QUERIES), "history_depth": "caching on: 4 (5 for one query); caching off: 3; one depth-6 block by VERIF_SEED" if tier == "quick" else "6; 7 for 3 queries", "max_live_iterators": 3,
             "task_preemptions": 1 if tier == "quick" else 3, "thread_preemptions": 1 if tier == "quick" else 2}
 
 
 def letters(n_live):
-    out = [("open", 0), ("open", 1), ("findall", 0), ("findall", 1), ("recompile", None), ("other", 0), ("other", 1)]
+    out = [("open", 0), ("open", 1), ("findall", 0), ("findall", 1), ("recompile", None), ("other", 0), ("other", 1),
+           ("ctx2", 0), ("ctx2", 1)]
     for j in range(n_live):
         out.append(("adv", j))
+    if n_live == 0:
+        # edit the documents in place between evaluations (only while no lazy iterator is open on them)
+        out.append(("swap", None))
     return out
+
+
+N_FIRST = 9  # letters available in the initial state, excluding swap (a swap first is covered as a second letter)
 
 
 def plan(tier, seed):
@@ -65,19 +72,19 @@ def plan(tier, seed):
     for qi in range(len(QUERIES)):
         for caching in (True, False):
             if tier == "quick":
-                depth = 5 if (caching and qi in (0, 5, 9)) else 4
+                depth = (5 if qi == 1 else 4) if caching else 3
             else:
                 depth = 6
-            for first in range(7):
+            for first in range(N_FIRST):
                 shards.append(("H", qi, caching, first, depth))
     if tier == "quick":
         qi = seed % len(QUERIES)
-        for first in range(7):
-            shards.append(("H6", qi, True, first, (seed // len(QUERIES)) % 7, 6))
+        for first in range(N_FIRST):
+            shards.append(("H6", qi, True, first, (seed // len(QUERIES)) % N_FIRST, 6))
     else:
         for qi in (0, 5, 9):
-            for first in range(7):
-                for second in range(8):
+            for first in range(N_FIRST):
+                for second in range(11):
                     shards.append(("H6", qi, True, first, second, 7))
     for hi in range(len(task_harnesses())):
         for caching in (True, False):
@@ -109,6 +116,8 @@ def _enum(state, hist, depth, visit):
         return
     for op, arg in letters(len(state)):
         if op == "open" and len(state) >= 3:
+            continue
+        if op == "swap" and len(state) > 0:
             continue
         if op == "open":
             ns = state + ((arg, 0),)
@@ -176,6 +185,7 @@ def _history(qi, caching, hist, acc, record=True):
     snaps = [deep_copy(d) for d in DOCS]
     ctx = deep_copy(CTX[ci])
     ctx_snap = deep_copy(CTX[ci])
+    content = [0, 1]  # which reference document each live document object currently equals
     bad = None
     nontrivial = False
     evaluated_since_open = False
@@ -188,7 +198,7 @@ def _history(qi, caching, hist, acc, record=True):
                 live.append([iter(p.finditer(docs[arg], filter_context=ctx)), arg, 0])
             elif op == "adv":
                 it, di, pos = live[arg]
-                ref = reference(text, di, ci)
+                ref = reference(text, content[di], ci)
                 try:
                     m = next(it)
                     got = (ckey(m.obj), m.path)
@@ -204,15 +214,31 @@ def _history(qi, caching, hist, acc, record=True):
             elif op == "findall":
                 evaluated_since_open = True
                 got = [(ckey(m.obj), m.path) for m in p.finditer(docs[arg], filter_context=ctx)]
-                if got != reference(text, arg, ci) or [g[0] for g in got] != [ckey(v) for v in p.findall(docs[arg], filter_context=ctx)]:
-                    bad = ("step%d.findall" % si, reference(text, arg, ci), got)
+                if got != reference(text, content[arg], ci) or [g[0] for g in got] != [ckey(v) for v in p.findall(docs[arg], filter_context=ctx)]:
+                    bad = ("step%d.findall" % si, reference(text, content[arg], ci), got)
                     break
             elif op == "other":
                 evaluated_since_open = True
                 got = [(ckey(m.obj), m.path) for m in other.compile(text).finditer(docs[arg], filter_context=ctx)]
-                if got != reference(text, arg, ci):
-                    bad = ("step%d.other-caching-mode" % si, reference(text, arg, ci), got)
+                if got != reference(text, content[arg], ci):
+                    bad = ("step%d.other-caching-mode" % si, reference(text, content[arg], ci), got)
                     break
+            elif op == "ctx2":
+                evaluated_since_open = True
+                ctx_b = deep_copy(CTX[1 - ci])
+                got = [(ckey(m.obj), m.path) for m in p.finditer(docs[arg], filter_context=ctx_b)]
+                if got != reference(text, content[arg], 1 - ci):
+                    bad = ("step%d.other-filter-context" % si, reference(text, content[arg], 1 - ci), got)
+                    break
+                if not jeq_ordered(ctx_b, CTX[1 - ci]):
+                    bad = ("step%d.filter-context-modified" % si, CTX[1 - ci], ctx_b)
+                    break
+            elif op == "swap":
+                a, b = deep_copy(docs[0]), deep_copy(docs[1])
+                docs[0].clear(); docs[0].update(b)
+                docs[1].clear(); docs[1].update(a)
+                snaps = [deep_copy(d) for d in docs]
+                content = [content[1], content[0]]
             elif op == "recompile":
                 p2 = env.compile(text)
                 if not (p2 == p) or hash(p2) != hash(p) or str(p2) != p_str:
@@ -227,7 +253,7 @@ def _history(qi, caching, hist, acc, record=True):
                 break
         if bad is None:
             for j, (it, di, pos) in enumerate(live):
-                ref = reference(text, di, ci)
+                ref = reference(text, content[di], ci)
                 rest = [(ckey(m.obj), m.path) for m in it]
                 if rest != ref[pos:]:
                     bad = ("drain%d" % j, ref[pos:], rest)
@@ -271,17 +297,21 @@ def task_harnesses():
 
 
 def _tasks(hi, caching, bound, acc, record=True, only=None):
-    env = _env(caching)
+    import jsonpath
+
     specs = task_harnesses()[hi]
-    compiled = {}
-    docs = []
-    for qi, di in specs:
-        if qi not in compiled:
-            compiled[qi] = env.compile(QUERIES[qi])
-        docs.append(sched.wrap(deep_copy(DOCS[di])))
     want = [[x[0] for x in reference(QUERIES[qi], di, qi % 2)] for qi, di in specs]
 
     def make():
+        # everything is rebuilt per execution so that executions are independent and prefixes replay exactly;
+        # within one execution the tasks share the environment and the compiled queries
+        env = jsonpath.JSONPathEnvironment(filter_caching=caching)
+        compiled = {}
+        docs = []
+        for qi, di in specs:
+            if qi not in compiled:
+                compiled[qi] = env.compile(QUERIES[qi])
+            docs.append(sched.wrap(deep_copy(DOCS[di])))
         coros = []
         for (qi, di), d in zip(specs, docs):
             async def t(p=compiled[qi], d=d, fc=CTX[qi % 2]):
@@ -412,7 +442,7 @@ def _free(n, acc):
                     return
 
 
-REQUIRE = {"H.open": 1000, "H.adv": 1000, "H.findall": 1000, "H.recompile": 1000, "H.other": 1000, "H.interleaved": 1000,
+REQUIRE = {"H.open": 1000, "H.adv": 1000, "H.findall": 1000, "H.recompile": 1000, "H.other": 1000, "H.interleaved": 1000, "H.ctx2": 1000, "H.swap": 100,
            "TASK.schedules": 50, "THR.schedules": 100, "FREE.runs": 100}
 
 
@@ -445,6 +475,8 @@ def _valid(hist):
             if live > 3:
                 return False
         elif op == "adv" and arg >= live:
+            return False
+        elif op == "swap" and live > 0:
             return False
     return True
 
